@@ -186,6 +186,21 @@ var (
 	c01Untrusted = []string{".A", ".B", ".U", ".S", ".A", ".B"}
 )
 
+// sets of templates that share helpers: members that are accepted, members that are refused only at
+// their end (after the helper has been analysed), helpers called from several contexts
+var c01Sets = []string{
+	`{{define "h"}}<b>{{.A}}</b>{{end}}{{define "good"}}<p>{{template "h" .}}</p>{{end}}{{define "bad"}}<p>{{template "h" .}}</p><a href="{{end}}{{template "good" .}}`,
+	`{{define "h"}}{{.A}}{{end}}{{define "good"}}<a title="{{template "h" .}}">k</a>{{end}}{{define "bad"}}<a title="{{template "h" .}}">k</a><i title='{{end}}x{{template "good" .}}`,
+	`{{define "h"}}{{.A}}{{end}}{{define "good"}}<p>{{template "h" .}}</p>{{end}}{{define "bad"}}{{template "h" .}}{{if .T}}<a href="{{else}}<b>{{end}}{{end}}<i>{{template "h" .}}</i>`,
+	`{{define "h"}}{{.A}}{{end}}{{define "good"}}<textarea>{{template "h" .}}</textarea>{{end}}{{define "bad"}}<textarea>{{template "h" .}}{{end}}ok {{.B}}`,
+	`{{define "h"}}{{.A}}{{end}}{{define "good"}}<a href="/p?q={{template "h" .}}">k</a>{{end}}{{define "bad"}}<a href="/p?q={{template "h" .}}">k</a><!--{{end}}<p>{{.B}}</p>`,
+	`{{define "h"}}{{.A}}{{end}}{{define "k"}}<i>{{.B}}</i>{{end}}{{define "g1"}}<p>{{template "h" .}}{{template "k" .}}</p>{{end}}{{define "g2"}}<b title="{{template "h" .}}">{{template "k" .}}</b>{{end}}{{define "bad"}}{{template "g1" .}}<script>{{end}}{{template "g2" .}}`,
+	`{{define "h"}}<li>{{.A}}</li>{{end}}{{define "good"}}<ul>{{range .L}}{{template "h" $}}{{end}}</ul>{{end}}{{define "bad"}}<ul>{{template "h" .}}</ul><style>{{end}}{{template "good" .}}`,
+	`{{define "h"}}{{.A}}{{end}}{{define "good"}}<p>{{template "h" .}}</p>{{end}}{{define "bad"}}<p>{{template "h" .}}</p>{{template "nope" .}}{{end}}{{template "good" .}}`,
+	`{{define "h"}}{{.A}}{{end}}{{define "good"}}<p>{{template "h" .}}</p>{{end}}{{define "bad"}}<p>{{template "h" .}}</p><a href={{.B}}>{{end}}{{template "good" .}}`,
+	`{{define "h"}}{{with .A}}{{.}}{{end}}{{end}}{{define "a"}}<p>{{template "h" .}}</p>{{end}}{{define "b"}}<q cite="{{template "h" .}}">{{template "a" .}}</q>{{end}}{{define "bad"}}{{template "b" .}}<title>{{end}}{{template "a" .}}`,
+}
+
 type c01Gen struct {
 	q        *c01Policy
 	b        strings.Builder
@@ -782,6 +797,48 @@ func runC01(c *caseWriter) (string, bool, map[string]int) {
 		}
 		for _, h := range c01Hostile {
 			emit(c, "struct", t, "", c01Inert(sh), c01Wire(sh, func(int) string { return "str:" + hx(h) }))
+		}
+	}
+	// (2a) histories on one set: every ordered pair (executed first, then executed and judged) of the
+	// templates a pool text defines (the root is "main"): what an earlier execution - successful or
+	// refused - leaves behind in the set must not change how data is treated later
+	c01Define := regexp.MustCompile(`\{\{-? *define "([^"]+)"`)
+	for _, t := range append(append([]string{}, c01Sets...), defPool...) {
+		names := []string{"main"}
+		for _, m := range c01Define.FindAllStringSubmatch(t, -1) {
+			names = append(names, m[1])
+		}
+		if len(names) < 2 {
+			continue
+		}
+		pairs := 0
+		for _, pre := range names {
+			for _, tgt := range names {
+				if pre == tgt || (quick && pairs >= 20) {
+					continue
+				}
+				pairs++
+				c01Emit(c, t, pre+"\x01"+tgt, sh, idx, 2)
+				idx++
+			}
+		}
+		if len(names) > 2 {
+			c01Emit(c, t, strings.Join(names[1:], "\x01")+"\x01main", sh, idx, 2)
+			idx++
+			// every member after every ordered pair of the others (quick: the first 30)
+			triples := 0
+			for _, p1 := range names {
+				for _, p2 := range names {
+					for _, tgt := range names {
+						if p1 == p2 || p2 == tgt || (quick && triples >= 30) {
+							continue
+						}
+						triples++
+						c01Emit(c, t, p1+"\x01"+p2+"\x01"+tgt, sh, idx, 1)
+						idx++
+					}
+				}
+			}
 		}
 	}
 	for _, t := range []string{
